@@ -175,15 +175,17 @@ PROPS = {
     'C06': {
         'units': ['builder'],
         'kani': [],
-        'own': {'builder': r'Builder::(check_last_key|insert|add|insert_output)$'},
+        'own': {'builder': r'Builder::(check_last_key|insert|add|insert_output|extend_iter|extend_stream)$'},
         'level_text': 'Proof: Builder::check_last_key is verified on its real body against the full ordering contract (which answer, '
                       'both error payloads, the whole struct unchanged on Err, only `last` changed on Ok); insert/add are verified to run '
                       'it first and to leave the builder untouched when it rejects, and otherwise to extend the denotation of the builder '
                       'by exactly the accepted (key, value).',
-        'level_note': 'Slice order on [u8] is an assumed std contract (lexicographic). from_iter/extend_iter/extend_stream are loops over '
-                      'generic iterators outside the verifier dialect: not decided (each body is `for .. { self.insert(..)? }`).',
+        'level_note': 'Slice order on [u8] is an assumed std contract (lexicographic). extend_iter (raw, map, set) is verified on its real loop '
+                      '(the `for` written out as the loop over next() it abbreviates, rule R19; the parameter taken at I: Iterator, rule R20) against '
+                      'the prophetic iterator model of vstd: Ok only if every item passed the ordering check, and then exactly these entries were added. '
+                      'What an Err leaves behind is not stated (a converting `?` hides whether the error came from the sink). from_iter/extend_stream: not decided.',
         'explanation': 'C06 clauses are postconditions of check_last_key / insert / add in unit builder.',
-        'assumptions': ['iterator front ends (from_iter, extend_iter, extend_stream) not decided by a verifier'],
+        'assumptions': ['from_iter and extend_stream not decided by a verifier', 'termination of extend_iter is not proved (a generic iterator may be infinite)'],
     },
     'C07': {
         'units': ['cw', 'bytesio', 'encode', 'builder'],
